@@ -49,16 +49,17 @@ impl<const N: usize> ArraySink<N> {
 
 impl<const N: usize> io::Write for ArraySink<N> {
     fn write(&mut self, b: &[u8]) -> io::Result<usize> {
+        // the accepted length is computed up front (no data-dependent exit), so
+        // that it stays a constant for the model checker when lengths are
+        let room = N - self.pos;
+        let n = if b.len() <= room { b.len() } else { room };
         let mut i = 0;
-        while i < b.len() {
-            if self.pos >= N {
-                break;
-            }
-            self.buf[self.pos] = b[i];
-            self.pos += 1;
+        while i < n {
+            self.buf[self.pos + i] = b[i];
             i += 1;
         }
-        Ok(i)
+        self.pos += n;
+        Ok(n)
     }
     /// Same bytes as the default `write_all` over `write` for a sink that
     /// accepts everything; a single loop keeps the model small.
